@@ -29,6 +29,8 @@ RepOf(ln) == [etag_p |-> ln.etag_p, etag_opaque |-> ln.etag_opaque, etag_weak |-
               lm_p |-> ln.lm_p, lm |-> ln.lm, length |-> ln.length, len_known |-> ln.len_known]
 ObsOf(ln) == [status |-> ln.status, exc |-> ln.exc, cr_n |-> ln.cr_n, cr |-> ln.cr, cl_n |-> ln.cl_n, cl |-> ln.cl, body |-> ln.body]
 
+\* op "stream": bodies that are wrap_file() around io objects of every seekability kind; same contract (a 206 carries exactly
+\* the declared bytes, no exception while the WSGI server iterates), clauses prefixed Stream/.
 \* op "pre": Response subclasses / responses that carry headers before make_conditional.  What the WSGI server
 \* receives is judged as always; only a Content-Range that the application itself put on a response that is not
 \* answered 206 is the application's, not the library's (ignored).
@@ -36,7 +38,10 @@ ObsPre(ln) == [ObsOf(ln) EXCEPT !.cr_n = IF ln.pre_cr /\ ln.status # 206 THEN 0 
 
 JVerdict(ln) ==
   LET req == ReqOf(ln) rep == RepOf(ln) IN
-  IF ln.op = "pre" THEN
+  IF ln.op = "stream" THEN
+     (IF ln.api # "mc" \/ ~InDomain(req, rep) \/ Len(ln.lm) # 7 THEN "OutOfDomain"
+      ELSE LET v == Verdict(req, rep, ObsOf(ln)) IN IF v = "ok" THEN "ok" ELSE "Stream/" \o v)
+  ELSE IF ln.op = "pre" THEN
      (IF ~(ln.api \in {"mc", "sf"}) \/ Len(ln.lm) # 7 THEN "OutOfDomain"
       ELSE LET v == IF InDomainRC(req, rep) THEN VerdictRC(req, rep, ObsPre(ln))
                     ELSE IF InDomain(req, rep) THEN Verdict(req, rep, ObsPre(ln)) ELSE "OutOfDomain" IN
